@@ -14,7 +14,12 @@ def trace_open_sets(tools, case, name_to_num):
     out = os.path.join(tools.work, 'out17_' + case.id); os.makedirs(out, exist_ok=True)
     tr = os.path.join(tools.work, 'trace17_' + case.id)
     args = ['strace', '-f', '-qq', '-s', '120', '-e', 'trace=openat,close,write', '-o', tr, tools.bin, '-d', dd, '-vv'] + case.args() + ['opreturn']
-    p = subprocess.run(args, capture_output=True, env=dict(os.environ, RAYON_NUM_THREADS='2'))
+    for attempt in range(3):      # see run.run_impl: a run can spin in rusty-leveldb's iterator before the first block; repeat on timeout
+        try:
+            p = subprocess.run(args, capture_output=True, env=dict(os.environ, RAYON_NUM_THREADS='2'), timeout=300); break
+        except subprocess.TimeoutExpired:
+            run.RETRIES.append((case.id, 'strace', attempt))
+            if attempt == 2: raise
     fds = {}; sets = []; mx = 0
     for line in open(tr, errors='replace'):
         m = OPEN_RE.match(line)
@@ -62,7 +67,7 @@ def make_case(r, i, kind, nfiles, per):
 
 def explore(ck):
     r = ck.rng; quick = ck.tier == 'quick'
-    ck.rule = ('chains spread over 2..%d blk files with disjoint, overlapping, interleaved and random height spans, files that end with a stale sibling of the first block of the next file, files finishing in reverse numeric order, files named by no record, ranges starting/stopping inside a file; the open/close system calls on blk files '
+    ck.rule = ('chains spread over 2..%d blk files with disjoint, overlapping, interleaved and random height spans, files that end with a stale sibling of the first block of the next file, files finishing in reverse numeric order, files named by no record, ranges starting/stopping inside a file, with and without --verify and xor.dat; the open/close system calls on blk files '
                'are traced with strace and the set of open blk files after each delivered height (located by the on_block trace line) is checked against the property-level bound '
                '{f : a block of a later height is stored in f} (the model\'s open set is a subset of it by C17_open_span) and compared with the model\'s open set; the same layouts are run under '
                'RLIMIT_NOFILE = descriptors of a one-file layout + 3. Non-trivial: >= 3 files and >= 1 file whose span overlaps another; distinct by layout.' % (40 if quick else 300))
@@ -72,6 +77,8 @@ def explore(ck):
     for i, (kind, nf, per) in enumerate(specs):
         c = make_case(r, i, kind, nf, per)
         if i % 3 == 1: c.start = r.randrange(1, nf * per - 1); c.end = r.choice([None, r.randrange(c.start + 1, nf * per + 1)])
+        if i % 4 == 0: c.start = max(c.start, 1); c.verify = True          # --verify (no genesis block needed from height 1): verification must not keep or re-open files
+        if i % 4 == 1 or kind == 'disjoint': c.xor = gen.rb(r, 8)           # obfuscated directory: files must still be opened lazily and closed when finished
         cases.append(c)
     models = run.run_model(ck.tools, cases, ['opens', 'opreturn'])
     same_as_model = 0
@@ -87,6 +94,12 @@ def explore(ck):
         if c.meta['nfiles'] >= 3 and overlapping: ck.nontrivial((c.meta['kind'], c.meta['nfiles'], c.start, c.end))
         elif c.meta['nfiles'] >= 3: ck.nontrivial((c.meta['kind'], c.meta['nfiles'], c.start, c.end, 'disjoint'))
         if rc != 0: ck.disagreement('run failed under strace on ' + c.id, 'rc=%s' % rc, c, in_domain=True); continue
+        if not sets and m['delivered']:
+            # the per-height marker (a trace-level log line of the parser loop) is not part of any property: without it only the height-independent part of the bound is checked
+            bound = max(len({f for f in maxh if maxh[f] > h} | {fo[h]}) for h in m['delivered'])
+            ck.count('height markers missing in the trace output: only the maximum number of simultaneously open blk files is checked')
+            if mx > bound: ck.disagreement('more blk files open at once than any height allows on ' + c.id, 'observed %d, bound %d' % (mx, bound), c, in_domain=True)
+            continue
         if [h for h, _ in sets] != m['delivered']:
             ck.disagreement('delivered heights under strace on ' + c.id, 'impl=%s model=%s' % ([h for h, _ in sets][:20], m['delivered'][:20]), c, in_domain=True); continue
         bad = []
